@@ -233,12 +233,12 @@ func runStore(o *out, r *rng, thorough bool, pid string) {
 	x := &c04ctx{t: newTok(), sigs: map[string]*sigRec{}}
 	t := x.t
 	ctx := context.Background()
-	nh := 40
+	nh := 90
 	if thorough {
 		nh = 500
 	}
 	if pid == "C10" {
-		nh = 25
+		nh = 50
 		if thorough {
 			nh = 250
 		}
